@@ -31,6 +31,8 @@ def run(prog, chk):
     from props import C11
     C11.shape_pipeline(prog, chk)  # surround/inside/margin are consumed only in the shape pipeline
     all_boxes_combined(prog, chk)
+    from props import C10
+    C10.containment_every_target(prog, chk)  # every listed element contributes its box
     from props import strops
     strops.check_for(prog, chk, "C12")  # A14.str-ops: how this property's strings are cut up is a reviewed, frozen inventory
 
